@@ -7,7 +7,7 @@ from ..callgraph import get_callgraph
 from ..cfg import all_stmts
 from ..model import AnalysisError, call_name, dotted, is_self_attr, parent_map, short, src
 from ..norm import atoms
-from .common import recv_name
+from .common import holds_at, recv_name
 
 # ------------------------------------------------------------------ R1: address / hash derived values
 ALLOWED_ID_CONTEXT = {
@@ -317,16 +317,7 @@ def set_order_sites(ctx):
                     uses = [u for u in ast.walk(f.node) if isinstance(u, ast.Name) and u.id == var and isinstance(u.ctx, ast.Load)]
                     ok_all = bool(uses)
                     for u in uses:
-                        p = u
-                        g = False
-                        while p in pm:
-                            child = p
-                            p = pm[p]
-                            if isinstance(p, ast.If) and any(child is s for s in p.body):
-                                for a in atoms(p.test):
-                                    if a[0] == "falsy" and dotted(a[1]) == name:
-                                        g = True
-                        ok_all = ok_all and g
+                        ok_all = ok_all and holds_at(ctx, f, u, lambda a, name=name: a[0] == "falsy" and dotted(a[1]) == name)
                     discharged = ok_all
                 sites.append((f, n, "pop", name, discharged, "an arbitrary element is taken from the set"))
             # S5 next(iter(S))
@@ -383,10 +374,10 @@ def r2_set_order(ctx):
 
 
 def r3_order_free_aggregates(ctx):
-    from .c10 import r2_any_dependent_member_wraps, r4_table_needs_disjoint_keys
+    from .c10 import r2_any_dependent_member_wraps, r4_table_laws
 
     r2_any_dependent_member_wraps(ctx)
-    r4_table_needs_disjoint_keys(ctx)
+    r4_table_laws(ctx)
 
 
 RULES = [
